@@ -1,6 +1,6 @@
 -------------------------- MODULE MC_ExtendsGraphs --------------------------
 (* Every reference graph: N services over two files, each extending nothing, another service (same or other file)  *)
-(* or a missing service / file.  TLC checks termination of the resolution and error <=> cyclic or missing.         *)
+(* (-3: a reference whose file name is the empty string, e.g. an unset variable - not "this file") or a missing service / file.  TLC checks termination of the resolution and error <=> cyclic or missing.         *)
 EXTENDS Extends
 CONSTANTS N, ChainOnly   \* ChainOnly: only the graphs whose services are all on the chain that starts at the first one
 Nodes == 1..N
@@ -16,7 +16,7 @@ Kth(file, f, k) == CHOOSE m \in Nodes : file[m] = f /\ Rank(file, m) = k
 NameOf(file, reuse, n) == IF reuse /\ file[n] = 2 /\ Rank(file, n) <= Cardinality({m \in Nodes : file[m] = 1}) THEN Names[Kth(file, 1, Rank(file, n))] ELSE Names[n]
 RECURSIVE ReachFrom(_, _, _)
 ReachFrom(ext, R, k) == IF k = 0 THEN R ELSE ReachFrom(ext, R \cup {ext[n] : n \in {m \in R : ext[m] > 0}}, k - 1)
-Init == \E file \in [Nodes -> {1, 2}] : \E ext \in [Nodes -> (-2)..N] : \E reuse \in BOOLEAN :
+Init == \E file \in [Nodes -> {1, 2}] : \E ext \in [Nodes -> (-3)..N] : \E reuse \in BOOLEAN :
           /\ file[1] = 1
           /\ reuse => \E n \in Nodes : file[n] = 2
           /\ ChainOnly => ReachFrom(ext, {1}, N) = Nodes
